@@ -8,6 +8,8 @@ import (
 	"encoding/binary"
 	"fmt"
 	"reflect"
+
+	"github.com/valyala/bytebufferpool"
 	"sort"
 	"strconv"
 	"strings"
@@ -439,7 +441,131 @@ func goEnc(name string, r record) (line string, out []byte, after record, p code
 		return "err", nil, nil, p
 	}
 	after = snapshot(p)
+	retainEncoded(name, r, out)
 	return "ok " + canonEncoded(out, tailLen(p)) + " | " + renderRecord(name, after), out, after, p
+}
+
+// Every image an encoder hands out during a run is kept, with a copy of its octets taken at return, and looked at
+// again when the run is over (main.go): whatever the property, an image that a later call has changed is not the
+// caller's — its header no longer says what was encoded.  The calls of the run go through the deadline guard, each
+// in a goroutine of its own, so whether two of them meet in a buffer pool is up to the scheduler; the closing pass
+// therefore encodes a sample of the run's own inputs once more, one after the other in one goroutine, and checks
+// each image again after the three encodes that follow it.
+type retainedImage struct {
+	name string
+	r    record
+	img  []byte
+	snap []byte
+}
+
+var retainedImages []retainedImage
+var retainedCalls int
+var retainedPerType map[string]int
+
+func retainEncoded(name string, r record, out []byte) {
+	if out == nil {
+		return
+	}
+	retainedCalls++
+	if retainedPerType == nil {
+		retainedPerType = map[string]int{}
+	}
+	retainedPerType[name]++
+	if k := retainedPerType[name]; k > 120 && k%50 != 0 { // the first 120 images of every type, then one in fifty
+		return
+	}
+	retainedImages = append(retainedImages, retainedImage{name, r, out, append([]byte(nil), out...)})
+}
+
+// sweepPools takes every buffer the shared byte-buffer pool is willing to hand out and overwrites it up to its
+// capacity; the function returned puts them back
+func sweepPools() func() {
+	var taken []*bytebufferpool.ByteBuffer
+	for i := 0; i < 512; i++ {
+		b := bytebufferpool.Get()
+		full := b.B[:cap(b.B)]
+		for j := range full {
+			full[j] = 0xDD
+		}
+		taken = append(taken, b)
+	}
+	return func() {
+		for _, b := range taken {
+			b.Reset()
+			bytebufferpool.Put(b)
+		}
+	}
+}
+
+func verifyRetained(res *Result, prop string) {
+	reported := map[string]bool{}
+	report := func(it retainedImage, how string) {
+		if reported[it.name] {
+			return
+		}
+		reported[it.name] = true
+		ops := []string{"enc " + it.name + " " + renderInput(it.name, it.r), "(followed by " + how + ")"}
+		res.Violate(prop+".encoded-image-changed-later:"+it.name, fmt.Sprintf("an image returned by %s.IEncode no longer holds what was returned (was %s, is %s): it shares storage with something a later call wrote", it.name, hx(it.snap[:min(len(it.snap), 24)]), hx(it.img[:min(len(it.img), 24)])), ops)
+	}
+	for _, it := range retainedImages {
+		if !bytes.Equal(it.img, it.snap) {
+			report(it, "the later calls of this run")
+		}
+	}
+	// closing pass, one goroutine: a sample of the run's inputs (at most 40 per type), each image checked after the
+	// three encodes that follow it
+	perType := map[string]int{}
+	var sample []retainedImage
+	for _, it := range retainedImages {
+		if perType[it.name] < 40 {
+			perType[it.name]++
+			sample = append(sample, it)
+		}
+	}
+	var window, closing []retainedImage
+	n := 0
+	for _, it := range sample {
+		var out []byte
+		var err error
+		o := Guard(func() { out, err = build(it.name, it.r).IEncode() })
+		if o.Panic != "" || err != nil || out == nil {
+			continue
+		}
+		n++
+		// and one body-less PDU of every protocol in between (writers with and without a size hint, every pool)
+		for _, fn := range []string{"cmpp20.PduActiveTest", "cmpp30.ActiveTest", "smgp30.ActiveTest", "sgip12.Unbind", "smpp34.EnquireLink"} {
+			if mk, ok := registry[fn]; ok && fn != it.name {
+				Guard(func() { _, _ = mk().IEncode() })
+			}
+		}
+		for _, w := range window {
+			if !bytes.Equal(w.img, w.snap) {
+				report(w, "encodes of other PDU types in the same goroutine")
+			}
+		}
+		window = append(window, retainedImage{it.name, it.r, out, append([]byte(nil), out...)})
+		closing = append(closing, window[len(window)-1])
+		if len(window) > 4 {
+			window = window[1:]
+		}
+		for _, w := range window[:len(window)-1] {
+			if !bytes.Equal(w.img, w.snap) {
+				report(w, "an encode of "+it.name+" in the same goroutine")
+			}
+		}
+	}
+	// finally every buffer the shared pool is willing to hand out is taken and overwritten up to its capacity: an
+	// image that lives in a pooled buffer changes now, whichever buffer the encoders happened to be given before
+	giveBack := sweepPools()
+	for _, it := range append(append([]retainedImage(nil), retainedImages...), closing...) {
+		if !bytes.Equal(it.img, it.snap) {
+			report(it, "every buffer of the shared pool being taken and overwritten")
+		}
+	}
+	giveBack()
+	if len(retainedImages) > 0 {
+		res.Notes = append(res.Notes, fmt.Sprintf("%d encoded images of this run looked at again at its end; %d of its inputs encoded once more in one goroutine, each image checked after the three encodes that follow", len(retainedImages), n))
+	}
 }
 
 // goDec runs the real decoder into a fresh PDU.
